@@ -241,6 +241,15 @@ def _divmod_fresh(a, b):
         CTX.counter += 1
         q = z3.Int(f"q!{CTX.counter}")
         r = z3.Int(f"r!{CTX.counter}")
+        qr = _poly_divmod(a, b)
+        if qr is not None:
+            Q, R = qr
+            if z3.is_int_value(R) and R.as_long() == 0:
+                # a == b * Q identically (exact polynomial division): q = Q, r = 0
+                CTX.side.append(z3.Implies(b != 0, z3.And(q == Q, r == 0)))
+            elif CTX.sign_oracle is not None and CTX.sign_oracle(R, True) == 'pos' and CTX.sign_oracle(b - R) == 'pos':
+                # a == b*Q + R identically with 0 <= R < b on this path: quotient and remainder are Q and R
+                CTX.side.append(z3.And(q == Q, r == R))
         sign = CTX.sign_oracle(b) if CTX.sign_oracle is not None else None
         if sign == 'pos':
             CTX.side.append(a == b * q + r)
@@ -254,6 +263,84 @@ def _divmod_fresh(a, b):
             CTX.side.append(z3.Implies(b < 0, z3.And(r <= 0, r > b)))
         CTX.sqrt_terms[key] = (q, r)
     return CTX.sqrt_terms[key]
+
+
+def _to_sympy(t, table):
+    import sympy
+    if z3.is_int_value(t):
+        return sympy.Integer(t.as_long())
+    if z3.is_const(t) and t.decl().kind() == z3.Z3_OP_UNINTERPRETED and z3.is_int(t):
+        nm = t.decl().name()
+        if nm not in table:
+            table[nm] = (sympy.Symbol('v%d' % len(table)), t)
+        return table[nm][0]
+    if z3.is_app(t) and z3.is_int(t):
+        k = t.decl().kind()
+        ch = [_to_sympy(c, table) for c in t.children()]
+        if any(c is None for c in ch):
+            return None
+        if k == z3.Z3_OP_ADD:
+            return sum(ch[1:], ch[0])
+        if k == z3.Z3_OP_MUL:
+            r = ch[0]
+            for c in ch[1:]:
+                r = r * c
+            return r
+        if k == z3.Z3_OP_SUB:
+            r = ch[0]
+            for c in ch[1:]:
+                r = r - c
+            return r
+        if k == z3.Z3_OP_UMINUS:
+            return -ch[0]
+    return None
+
+
+def _from_sympy(e, table):
+    import sympy
+    inv = {str(v[0]): v[1] for v in table.values()}
+    e = sympy.expand(e)
+    terms = []
+    for mono, coeff in e.as_coefficients_dict().items():
+        if coeff.q != 1:
+            return None
+        t = z3.IntVal(int(coeff))
+        for base, power in mono.as_powers_dict().items():
+            if base == 1:
+                continue
+            if str(base) not in inv or int(power) != power or power < 0:
+                return None
+            for _ in range(int(power)):
+                t = t * inv[str(base)]
+        terms.append(t)
+    if not terms:
+        return z3.IntVal(0)
+    r = terms[0]
+    for t in terms[1:]:
+        r = r + t
+    return r
+
+
+def _poly_divmod(a, b):
+    """Polynomial division of the Int terms a by b: (Q, R) as z3 terms with a == b*Q + R identically (else None)."""
+    try:
+        if z3.is_int_value(b) or not (z3.is_int(a) and z3.is_int(b)):
+            return None
+        import sympy
+        table = {}
+        pa, pb = _to_sympy(a, table), _to_sympy(b, table)
+        if pa is None or pb is None or not table:
+            return None
+        syms = [v[0] for v in table.values()]
+        qq, rr = sympy.div(sympy.Poly(sympy.expand(pa), *syms), sympy.Poly(sympy.expand(pb), *syms))
+        if qq.is_zero:
+            return None
+        Q, R = _from_sympy(qq.as_expr(), table), _from_sympy(rr.as_expr(), table)
+        if Q is None or R is None:
+            return None
+        return Q, R
+    except Exception:
+        return None
 
 
 def py_floordiv_int(a, b):
